@@ -213,11 +213,15 @@ def semPy : Sem α := fun n env rs =>
       pure (boolNum (!isZero b))
   | _ => semCommon n env rs
 
-/-- the engine: `Divide` returns 0 for a zero numerator, `PowerConstant` returns 1 for a zero
-exponent; both coincide with the mathematical value in the regular domain -/
+/-- the engine: `Divide` returns 0 for a zero numerator, `Times` returns 0 when either factor is 0
+(`bioExprTimes`: both factors are evaluated — an error of either propagates — then `f = 0.0` in
+the branches `l = 0` and `l ≠ 0, r = 0`, so 0·∞ = ∞·0 = 0·NaN = 0 where IEEE gives NaN),
+`PowerConstant` returns 1 for a zero exponent; all coincide with the mathematical value in the
+regular domain -/
 def semEngine : Sem α := fun n env rs =>
   match n.kind with
   | .divide => bin rs fun a b => if isZero a then (0 : α) else a / b
+  | .times => bin rs fun a b => if isZero a || isZero b then (0 : α) else a * b
   | .powConst => un rs fun a => if isZero n.value then (1 : α) else Num.pow a n.value
   | _ => semCommon n env rs
 
